@@ -261,7 +261,7 @@ package dag
 //@   ensures run.errors {C14}: len(g.errs.Errors) != 0 ==> result != nil
 //@   ensures run.nil {C14}: result == nil ==> len(g.errs.Errors) == 0
 //@   ensures run.early {C16}: old(len(g.errs.Errors)) != 0 ==> $spawns_Run$1 == old($spawns_Run$1) && $spawns_Run$2 == old($spawns_Run$2) && $spawns_Run$3 == old($spawns_Run$3)
-//@   loop LOOP
+//@   loop LOOP | "for"
 //@     invariant sched.wf: WF(g) && StatusOK() && ParentsNonNil() && g == old(g) && g.errs == old(g.errs)
 //@     invariant sched.cancelled {C14}: handledContext ==> len(g.errs.Errors) > 0
 //@     invariant sched.chan: done != nil && semaphore != nil
